@@ -42,7 +42,7 @@ ENTRIES = {
     "part": [("writer", "make_part_file")],
 }
 
-SHARED_BASES = ("self", "global", "default", "classattr", "param")
+SHARED_BASES = ("self", "global", "default", "classattr", "param")   # local: only sites that name a slot by a constant key
 
 
 class Fn:
@@ -159,6 +159,8 @@ def scan(repo):
 
 def slot_of_site(s):
     t = s["target"]
+    if s["pattern"] == "mutcall" and s.get("detail") in ("pop", "__delitem__", "setdefault", "__setitem__") and s.get("key"):
+        return s["key"]             # d.pop("k") / d.setdefault("k", v): the slot is the constant key
     if s["base"] == "global" and "[" in t:
         return t.split("[")[0].split(".")[-1] + "[*]"
     if s["base"] == "global" and "." not in t and "[" not in t:
